@@ -89,12 +89,14 @@ def panics (v : List Nat) : Op → Bool
 def applyEv (M : Nat) (v : List Nat) : Ev → List Nat × Option Err
   | .push x => (v ++ [x], if M < (v ++ [x]).length then some (.maxSizeExceeded M) else none)
   | .pop => (v.dropLast, none)
-  | .insert i x => if v.length < i then (v, some (.invalidIndex i)) else (v.insertIdx i x, none)
+  | .insert i x =>
+    if v.length < i then (v, some (.invalidIndex i))
+    else (v.insertIdx i x, if M < (v.insertIdx i x).length then some (.maxSizeExceeded M) else none)
   | .set i x => if v.length ≤ i then (v, some (.invalidIndex i)) else (v.set i x, none)
   | .remove i => if v.length ≤ i then (v, some (.invalidIndex i)) else (v.eraseIdx i, none)
   | .swapRemove i => if v.length ≤ i then (v, some (.invalidIndex i)) else (swapRemove v i, none)
   | .fill x => (List.replicate v.length x, none)
-  | .resize n x => (resize v n x, none)
+  | .resize n x => if v.length < n ∧ M < n then (v, some (.maxSizeExceeded M)) else (resize v n x, none)
   | .truncate n => (v.take n, none)
   | .retain keep => (retainFrom (fun p => keep.contains p) 0 v, none)
   | .retainNot rm => (retainFrom (fun p => !rm.contains p) 0 v, none)
@@ -173,7 +175,8 @@ theorem apply_ok' (M : Nat) (c : List Nat) (op : Op) (_hs : c.length ≤ M) (hs'
   | insert i x =>
     by_cases h : i ≤ c.length
     · have : ¬ c.length < i := by omega
-      simp [apply, h, feedWith, applyEv, this]
+      have hlen : ¬ M < (c.insertIdx i x).length := by simp [apply, h] at hs'; omega
+      simp [apply, h, feedWith, applyEv, this, hlen]
     · simp [apply, h, feedWith]
   | remove i =>
     by_cases h : i < c.length
@@ -187,7 +190,11 @@ theorem apply_ok' (M : Nat) (c : List Nat) (op : Op) (_hs : c.length ≤ M) (hs'
     · simp [apply, h, feedWith]
   | fill x => simp [apply, feedWith, applyEv]
   | resize n x =>
-    by_cases h : n = c.length <;> simp [apply, h, feedWith, applyEv]
+    by_cases h : n = c.length
+    · simp [apply, h, feedWith, applyEv]
+    · have hlen : ¬ (c.length < n ∧ M < n) := by
+        simp [apply, h, resize_length] at hs'; omega
+      simp [apply, h, feedWith, applyEv, hlen]
   | truncate n =>
     by_cases h : n < c.length <;> simp [apply, h, feedWith, applyEv]
   | clear =>
